@@ -51,6 +51,8 @@ def run(prog, chk):
     single_tokenizer(prog, chk)
     from props import geomalg
     geomalg.check_sites(prog, chk, "C11")
+    emission_algebra(prog, chk)
+    extraction_algebra(prog, chk)
 
 
 def _arms(owner):
@@ -394,3 +396,122 @@ def single_tokenizer(prog, chk):
     rets = set(b.return_blocks)
     leak = b.reach([ft], avoid=toks) & rets
     chk.ob(not leak, "A16.single-tokenizer", "split_compound_attr:literal", b.where(), "a shorthand value that is not a reference is always split by attr_split_cycle (the shared tokenizer: blanks and/or commas)", "split_compound_attr can return a pair for a literal value without going through attr_split_cycle: some separator spelling (e.g. `1,2`) is no longer split like the others")
+
+
+PAIRS = {
+    ("start", "end"): ("S", "E"),
+    ("start", "middle"): ("S", "2*M - S"),
+    ("end", "middle"): ("2*M - E", "E"),
+    ("start", "length"): ("S", "S + L"),
+    ("end", "length"): ("E - L", "E"),
+    ("middle", "length"): ("M - L/2", "M + L/2"),
+}
+FIELD = {"x": {"start": "xmin", "end": "xmax", "middle": "cx", "length": "width"}, "y": {"start": "ymin", "end": "ymax", "middle": "cy", "length": "height"}}
+SYM = {"start": "S", "end": "E", "middle": "M", "length": "L"}
+
+
+def emission_algebra(prog, chk):
+    """end to end: for rect / circle / ellipse and every pair of constraints per axis (6 x 6), with and without dx/dy,
+    the geometry attributes written by Position::set_position_attrs are - as exact terms - the ones the defining
+    equations give: the box [A, B] determined by the two constraints, moved by (dx, dy).  Evaluated with the affine
+    abstract evaluator through to_bbox / x_def / extent / center / locspec; nothing is executed."""
+    from sa import algebra as A
+    from fractions import Fraction
+
+    path = "svgdx::position::Position::set_position_attrs"
+    b = prog.body(path)
+    chk.touch(b)
+    n = 0
+    bad = []
+    for shape in ("rect", "circle", "ellipse"):
+        for px, (ax, bx) in PAIRS.items():
+            for py, (ay, by) in PAIRS.items():
+                for with_d in (True, False):
+                    fields = {f: ("none",) for ax_ in FIELD.values() for f in ax_.values()}
+                    for role in px:
+                        fields[FIELD["x"][role]] = ("some", {SYM[role] + "x": Fraction(1)})
+                    for role in py:
+                        fields[FIELD["y"][role]] = ("some", {SYM[role] + "y": Fraction(1)})
+                    fields["dx"] = ("some", {"DX": Fraction(1)}) if with_d else ("none",)
+                    fields["dy"] = ("some", {"DY": Fraction(1)}) if with_d else ("none",)
+                    fields["shape"] = ("str", shape)
+                    ev = A.Evaluator(prog, name_case=shape, transparent=("strp", "fstr"), watch=("set_attr",))
+                    ev.summary(path, self_value=("struct", fields))
+                    got = {}
+                    for c in ev.calls:
+                        if len(c["args"]) >= 2 and c["args"][0] is not None and not A.is_form(c["args"][0]) and c["args"][0][0] == "str":
+                            got[c["args"][0][1]] = c["args"][1]
+                    sx = lambda e: A.ref(_sub_axis(e, "x"))
+                    sy = lambda e: A.ref(_sub_axis(e, "y"))
+                    Ax, Bx, Ay, By = sx(ax), sx(bx), sy(ay), sy(by)
+                    dx = {"DX": Fraction(1)} if with_d else {}
+                    dy = {"DY": Fraction(1)} if with_d else {}
+                    L = A.L
+                    half = lambda a, c: L._scale(L._add(a, c), Fraction(1, 2))
+                    if shape == "rect":
+                        want = {"x": L._add(Ax, dx), "y": L._add(Ay, dy), "width": L._add(Bx, Ax, -1), "height": L._add(By, Ay, -1)}
+                    elif shape == "circle":
+                        want = {"cx": L._add(half(Ax, Bx), dx), "cy": L._add(half(Ay, By), dy), "r": L._scale(L._add(Bx, Ax, -1), Fraction(1, 2))}
+                    else:
+                        want = {"cx": L._add(half(Ax, Bx), dx), "cy": L._add(half(Ay, By), dy), "rx": L._scale(L._add(Bx, Ax, -1), Fraction(1, 2)), "ry": L._scale(L._add(By, Ay, -1), Fraction(1, 2))}
+                    n += 1
+                    diffs = [k for k in sorted(set(want) | set(got)) if not A.equal(got.get(k), want.get(k))]
+                    if diffs:
+                        k = diffs[0]
+                        bad.append(f"{shape} x:{'+'.join(px)} y:{'+'.join(py)}{' dx/dy' if with_d else ''}: `{k}` is {A.canon(got.get(k))}, the constraints give {A.canon(want.get(k))}")
+    chk.floor("A17.emission", n, 216, "shape x constraint-pair x constraint-pair x offset case of set_position_attrs")
+    chk.ob(not bad, "A17.emission", "set_position_attrs", b.where(), f"all {n} cases (3 shapes x 36 constraint combinations x with/without dx,dy) write exactly the geometry the constraints define", f"{len(bad)} of {n} cases disagree with the defining equations, e.g. {bad[0] if bad else ''}" + (f"; {bad[1]}" if len(bad) > 1 else ""))
+
+
+def _sub_axis(expr, axis):
+    import re
+    return re.sub(r"\b([SEML])\b", lambda m: m.group(1) + axis, expr)
+
+
+def extraction_algebra(prog, chk):
+    """From<&SvgElement> for Position reads every spelling of a constraint into the field of its role: x / x1 -> start,
+    x2 -> end, cx -> middle, width | 2r | 2rx -> length (and the y counterparts), for every pair of constraints per
+    axis and every spelling the shape admits - including mixed spellings (an ellipse with rx and height)."""
+    from sa import algebra as A
+    from fractions import Fraction
+    import itertools
+
+    path = "<svgdx::position::Position as std::convert::From<&svgdx::element::SvgElement>>::from"
+    b = prog.body(path)
+    chk.touch(b)
+    spell = {
+        "rect": {"x": {"start": ["x"], "end": ["x2"], "middle": ["cx"], "length": ["width"]}, "y": {"start": ["y"], "end": ["y2"], "middle": ["cy"], "length": ["height"]}},
+        "circle": {"x": {"start": ["x"], "end": ["x2"], "middle": ["cx"], "length": ["width", "r"]}, "y": {"start": ["y"], "end": ["y2"], "middle": ["cy"], "length": ["height", "r"]}},
+        "ellipse": {"x": {"start": ["x"], "end": ["x2"], "middle": ["cx"], "length": ["width", "rx"]}, "y": {"start": ["y"], "end": ["y2"], "middle": ["cy"], "length": ["height", "ry"]}},
+        "line": {"x": {"start": ["x1", "x"], "end": ["x2"], "middle": ["cx"], "length": ["width"]}, "y": {"start": ["y1", "y"], "end": ["y2"], "middle": ["cy"], "length": ["height"]}},
+    }
+    n = 0
+    bad = []
+    for shape, sp in spell.items():
+        for px in PAIRS:
+            for py in PAIRS:
+                xs = [sp["x"][r] for r in px]
+                ys = [sp["y"][r] for r in py]
+                for combo in itertools.product(*xs, *ys):
+                    present = set(combo)
+                    ev = A.Evaluator(prog, name_case=shape, transparent=("strp", "fstr"), present=present)
+                    summ = ev.summary(path)
+                    got = summ["ret"] if summ else None
+                    want = {f: ("none",) for ax_ in FIELD.values() for f in ax_.values()}
+                    want.update(dx=("none",), dy=("none",), shape=("str", shape))
+                    for axis, roles, attrs in (("x", px, combo[:2]), ("y", py, combo[2:])):
+                        for role, attr in zip(roles, attrs):
+                            v = {"@" + attr: Fraction(2 if attr in ("r", "rx", "ry") else 1)}
+                            want[FIELD[axis][role]] = ("some", v)
+                    # a circle's `r` spells both lengths at once
+                    if shape == "circle" and "r" in present:
+                        for f, other in (("width", "width"), ("height", "height")):
+                            want[f] = ("any",) if other in present else ("some", {"@r": Fraction(2)})
+                    n += 1
+                    g = got[1] if (got is not None and not A.is_form(got) and got[0] == "struct") else {}
+                    diffs = [k for k in sorted(want) if not A.equal(g.get(k, ("none",)), want[k])]
+                    if diffs:
+                        k = diffs[0]
+                        bad.append(f"<{shape} {' '.join(sorted(present))}>: Position.{k} is {A.canon(g.get(k))}, expected {A.canon(want[k])}")
+    chk.floor("A17.extraction", n, 200, "shape x constraint pair x spelling case of Position::from")
+    chk.ob(not bad, "A17.extraction", "Position::from", b.where(), f"all {n} shape / constraint-pair / spelling cases read each attribute into the field of its role", f"{len(bad)} of {n} cases are read wrongly, e.g. {bad[0] if bad else ''}" + (f"; {bad[1]}" if len(bad) > 1 else ""))
